@@ -13,6 +13,7 @@ import NmfuProps.C03
 import NmfuProps.C04
 import NmfuProps.C17
 import NmfuProps.C02
+import NmfuProps.C12Storage
 namespace Nmfu
 
 private def arm (on : List Nat) (target : Int) (fall err : Bool) (acts : Acts := .nil) : Arm :=
@@ -59,5 +60,19 @@ example : (let r := exCtx.runChunks 4 (exCtx.start {}).1 [[97, 97, 59, 33]] 0
     hook (one log line) and waits for `;`; the second log line is the DONE code at offset 4 -/
 example : (let r := exCtx.runChunks 4 (exCtx.start {}).1 [[97, 97], [97, 59, 33]] 0
            (r.σ.memFault, (r.σ.str 0).counter, r.σ.state, r.σ.log.size)) = (false, 2, 6, 2) := by decide +kernel
+
+/-- hypothesis of `C12_storage_independent` (no expression indexes into a buffer), and the second
+    context is the first one with other storage options -/
+example : exCtx.idxFreeCheck = true := by decide +kernel
+example : exCtxOnDemand = exCtx.withStorage true true true := rfl
+
+/-- the session `aaa;!` then `end()`, in the struct and on the heap on demand with freeing: the
+    codes and cursors of `start`, `feed`, `end`, and the two bytes that were stored -/
+example : (exCtx.session {} [.feed [97, 97, 97, 59, 33] 0, .endInput]).2
+    = [("OK", 0), ("DONE", 4), ("DONE", 0)] := by decide +kernel
+example : (exCtxOnDemand.session {} [.feed [97, 97, 97, 59, 33] 0, .endInput]).2
+    = [("OK", 0), ("DONE", 4), ("DONE", 0)] := by decide +kernel
+example : (exCtxOnDemand.session {} [.feed [97, 97] 0, .feed [97, 59, 33] 0]).1.abs.content 0
+    = [some 97, some 97] := by decide +kernel
 
 end Nmfu
